@@ -334,7 +334,10 @@ theorem iterNext_reeval (f ls : Nat) (n it : Node) :
     iterNext (f+1) ls n it .reeval = (do
       match ← attemptE (eval f ls it) with
       | .ok v => pure (v, IterSt.reeval)
-      | .error (Sig.iter _ cur) => pure (.num cur, IterSt.reeval)
+      | .error (Sig.iter e cur) =>
+        match it.tok with
+        | some t => if e.line == t.line && e.pos == t.col then pure (.num cur, IterSt.reeval) else pure (.null, IterSt.reeval)
+        | none => pure (.null, IterSt.reeval)
       | .error e => throw e) := by
   rw [iterNext]; rfl
 
@@ -428,6 +431,22 @@ theorem exceptHandler_typed_decides (f sc : Nat) (c s0 st : Node) (ss : List Nod
         pure (some Val.null)
       else pure none) := by
   rw [exceptHandler_typed (f+2) sc c s0 st ss e hc hs hst, map_eval_plain f sc _ hv, typedMatch_values]
+  simp
+
+/-- the same for `except "T1", "T2" as v { block }` -/
+theorem exceptHandler_typed_as_decides (f sc : Nat) (c s0 a av st : Node) (t : Tok) (ss : List Node) (e : Sig)
+    (hc : c.children = ((s0 :: ss) ++ [a, st]).map some) (hs : ∀ x ∈ s0 :: ss, x.name = "string")
+    (ha : a.name = "as") (hac : a.children = [some av]) (hat : av.tok = some t)
+    (hst : st.name = "statements") (hv : ∀ x ∈ s0 :: ss, PlainStr x (textOf x)) :
+    exceptHandler (f+3) sc c e = (
+      if ((s0 :: ss).map textOf).any (fun b => bytesToString b == errType e) then do
+        let evs ← newChild sc (← scopeName c)
+        bindErrThen evs t.val e (do
+          let _ ← eval (f+2) evs st
+          pure (some Val.null))
+      else pure none) := by
+  rw [exceptHandler_typed_as (f+2) sc c s0 a av st t ss e hc hs ha hac hat hst, map_eval_plain f sc _ hv,
+    typedMatch_values]
   simp
 
 /-! ### the loop-variable binder raises no loop signal -/
